@@ -387,9 +387,21 @@ ResumeWritesD(St) ==
   IF D("ResendReversed") THEN [i \in 1..Len(ref) |-> ref[Len(ref) + 1 - i]]
   ELSE IF D("ResendWithoutDup") THEN [i \in 1..Len(St.inflight) |-> St.inflight[i].pk] ELSE ref
 
-Reconnect(age) ==
+Marker(age) == [NoPk EXCEPT !.t = "DECIDE", !.tag = age]
+Deciding == resumeQ # <<>> /\ Head(resumeQ).t = "DECIDE"
+
+Reconnect(age) ==     \* set_up + connect on a new transport; run() not yet polled
   /\ "resume" \in Endings /\ ph = "ret" /\ cret # <<>> /\ cret[1].kind = "SocketClosed" /\ nResume < 1
-  /\ LET expiredRef == SessionExpired(g.sei, 1, IF age = "after" THEN 2 ELSE 0)
+  /\ resumeQ' = <<Marker(age)>>
+  /\ ph' = "run" /\ cret' = <<>> /\ netEnd' = "open" /\ netIn' = <<>> /\ bk' = {} /\ nResume' = nResume + 1
+  /\ woken' = woken \cup {CtxT}
+  /\ Sch([a |-> "resume", age |-> age, sei |-> g.sei])
+  /\ UNCHANGED <<S, msgQ, ops, sts, nextPid, nextSid, handles, bq2, nIn, nCancel, nSpur, nTag, g>>
+
+CtxResumeDecide ==    \* the first thing run() does: abandon an expired session, or queue the retransmissions
+  /\ CtxCanStepAny /\ Deciding
+  /\ LET age == Head(resumeQ).tag
+         expiredRef == SessionExpired(g.sei, 1, IF age = "after" THEN 2 ELSE 0)
          expired == IF D("InvertedExpiry") /\ g.sei = "finite" THEN ~expiredRef ELSE expiredRef
      IN
      /\ S' = IF expired THEN [InitS(Rmax, Msz) EXCEPT !.rx2 = S.rx2, !.loose = TRUE]
@@ -399,8 +411,7 @@ Reconnect(age) ==
                ELSE ops
      /\ sts' = IF expired THEN [o \in Ops |-> [sts[o] EXCEPT !.tx = FALSE]] ELSE sts
      /\ resumeQ' = IF expired THEN <<>> ELSE ResumeWritesD(S)
-     /\ woken' = woken \cup {CtxT}
-                  \cup (IF expired THEN {Task("op", S.await[i].op) : i \in 1..Len(S.await)} \cup {Task("st", o) : o \in {q \in Ops : sts[q].pollable}} ELSE {})
+     /\ woken' = woken \cup (IF expired THEN {Task("op", S.await[i].op) : i \in 1..Len(S.await)} \cup {Task("st", o) : o \in {q \in Ops : sts[q].pollable}} ELSE {})
      /\ g' = [g EXCEPT !.owed = IF expiredRef THEN <<>> ELSE [i \in 1..Len(g.unacked) |-> IF g.unacked[i].t = "PUBLISH" THEN [g.unacked[i] EXCEPT !.dup = 1] ELSE g.unacked[i]],
                         !.unacked = IF expiredRef THEN <<>> ELSE @,
                         !.out = IF expiredRef THEN 0 ELSE @,
@@ -408,12 +419,11 @@ Reconnect(age) ==
                         !.req = IF expiredRef THEN <<>> ELSE @,
                         !.bad = @ \cup (IF expiredRef /\ ~expired THEN {<<"C17", "resumed-an-expired-session">>}
                                        ELSE IF ~expiredRef /\ expired THEN {<<"C17", "abandoned-an-unexpired-session">>} ELSE {})]
-  /\ ph' = "run" /\ cret' = <<>> /\ netEnd' = "open" /\ netIn' = <<>> /\ bk' = {} /\ nResume' = nResume + 1
-  /\ Sch([a |-> "resume", age |-> age, sei |-> g.sei])
-  /\ UNCHANGED <<msgQ, nextPid, nextSid, handles, bq2, nIn, nCancel, nSpur, nTag>>
+  /\ Sch([a |-> "poll", t |-> "ctx", k |-> 0])
+  /\ UNCHANGED <<msgQ, netIn, netEnd, ph, cret, nextPid, nextSid, handles, bk, bq2, nIn, nCancel, nSpur, nTag, nResume>>
 
 CtxResend ==      \* the first thing run() does on the new connection
-  /\ CtxCanStepAny /\ resumeQ # <<>>
+  /\ CtxCanStepAny /\ resumeQ # <<>> /\ ~Deciding
   /\ LET pk == Head(resumeQ)
          ackt == AckTypeFor(pk.t, pk.qos)
          owner == LET k == FirstIdx(S.await, LAMBDA e : e.key = <<ackt, pk.id>>) IN IF k = 0 THEN 0 ELSE S.await[k].op
@@ -487,7 +497,7 @@ Next ==
   \/ \E o \in Ops, k \in Kinds : Call(o, k)
   \/ \E o \in Ops : PollOp(o) \/ SpurPollOp(o) \/ DropOp(o) \/ PollSt(o) \/ SpurPollSt(o) \/ DropSt(o)
   \/ DropHandle
-  \/ CtxResend \/ (\E age \in {"before", "after"} : Reconnect(age))
+  \/ CtxResend \/ CtxResumeDecide \/ (\E age \in {"before", "after"} : Reconnect(age))
   \/ CtxTakeMsg \/ CtxTakePkt \/ CtxSeesEnd \/ CtxSeesNoHandles \/ CtxReturn \/ CtxYield \/ CtxSpur \/ CtxDrop
   \/ \E r \in bk, rc \in Reasons \cup {0} : BrokerAck(r, rc)
   \/ \E q \in InQos, id \in InIds, dup \in {0, 1}, ss \in SUBSET Ops : BrokerPublish(q, id, dup, ss)
